@@ -118,6 +118,23 @@ Fixpoint wf_from (c : ctrl) (ops : list op) : bool :=
   end.
 Definition wf (ops : list op) : bool := wf_from [] ops.
 
+(** does this tick carry an RTT sample for the link ([rtt_ms > 0.0] and finite) *)
+Definition rtt_sample_present (rtt : float) : bool := f_lt fzero rtt && f_is_finite rtt.
+
+(** The same premise stated on the INPUTS alone (Proofs/LinkCcRttP.v shows it implies [wf]):
+    every RTT the connection reports is either no sample (zero, negative, NaN, infinite) or a
+    finite value in [2^-200, 2^200] ms. *)
+Definition rtt_input_ok (rtt : float) : bool :=
+  negb (rtt_sample_present rtt) ||
+  (f_is_finite rtt && f_le 0x1p-200%float rtt && f_le rtt 0x1p+200%float).
+
+Definition tick_wf_in (now : Z) (inps : list inp) : bool :=
+  (0 <=? now) && (now <=? u64_max) && nodupZ (map i_id inps) &&
+  forallb (fun i => inp_ok i && rtt_input_ok (i_rtt i)) inps.
+
+Definition wf_inputs (ops : list op) : bool :=
+  forallb (fun o => match o with Tick now inps => tick_wf_in now inps end) ops.
+
 (** ---- the monitor: the property text over an observable trace ----
     Per link it remembers only what an observer of snapshots can know. *)
 Record mon := mkMon {
@@ -147,7 +164,6 @@ Definition cl_shape : N := 10.       (* observation list does not match the inpu
 Definition first_code (l : list (bool * N)) : N :=
   fold_right (fun (p : bool * N) acc => if fst p then acc else snd p) 0%N l.
 
-Definition rtt_sample_present (rtt : float) : bool := f_lt fzero rtt && f_is_finite rtt.
 
 (** is the loss average above the entry threshold in this snapshot *)
 Definition mon_high (o : lobs) : bool := f_lt FConstants.LOSS_DEGRADE_ENTER (o_lewma o).
@@ -322,6 +338,7 @@ Definition check_case (c : case) : N :=
   else if shape_bad then (1 + 4 * 63)%N
   else if negb (d =? 0)%Z then (1 + 4 * (64 + Z.to_N d))%N
   else if negb (float_ok_from [] ops) then (1 + 4 * 62)%N
+  else if negb (wf_inputs ops) then (1 + 4 * 61)%N   (* harness produced an out-of-scope history *)
   else 0%N.
 
 (** diagnostic helpers (used when investigating a replay by hand) *)
